@@ -702,14 +702,28 @@ func (w *crashWorld) realKill(st simkit.Step) {
 	pj, _ := json.Marshal(plan)
 	cmd := exec.Command(os.Args[0], "-test.run", "^TestVerifCrashChild$", "-test.count", "1")
 	if sysMode {
-		calls := "openat,write,pwrite64,ftruncate,fsync,fdatasync,rename,renameat,unlink,unlinkat,mkdir,mkdirat,fallocate"
-		cmd = exec.Command("strace", "-f", "-qq", "-o", "/dev/null", "-e", "trace="+calls,
-			"-e", fmt.Sprintf("inject=%s:signal=SIGKILL:when=%d", calls, 1+st.B%500),
+		// strace counts invocations per system call and per thread: one kind of call is chosen and
+		// the kill lands when a thread enters its N-th call of that kind (ranges fitted to what a
+		// start-up plus a handful of stores issue; a run in which the count is never reached ends
+		// normally and is checked like a kill after the last acknowledgement)
+		kinds := []struct {
+			call string
+			max  int64
+		}{{"write", 14}, {"ftruncate", 9}, {"openat", 36}, {"fsync,fdatasync", 3}, {"pwrite64", 6}, {"unlink,unlinkat", 3}, {"rename,renameat", 3}, {"write", 3}}
+		k := kinds[int(st.B)%len(kinds)]
+		n := 1 + (st.B/int64(len(kinds)))%k.max
+		if k.call == "openat" {
+			n += 8 // the first ones belong to process start-up
+		}
+		cmd = exec.Command("strace", "-f", "-qq", "-o", "/dev/null", "-e", "trace="+k.call,
+			"-e", fmt.Sprintf("inject=%s:signal=SIGKILL:when=%d", k.call, n),
 			os.Args[0], "-test.run", "^TestVerifCrashChild$", "-test.count", "1")
 	}
 	cmd.Env = append(os.Environ(), "VERIF_CHILD_DIR="+dir, "VERIF_CHILD_PLAN="+string(pj), "VERIF_OUT=")
 	if sysMode {
-		cmd.Env = append(cmd.Env, "VERIF_CHILD_EXIT=1")
+		// strace counts calls per thread: with one P nearly all of the store's calls are made by one
+		// thread (a few dozen from process start to the last store), so N stays small
+		cmd.Env = append(cmd.Env, "VERIF_CHILD_EXIT=1", "GOMAXPROCS=1")
 	}
 	stdout, _ := cmd.StdoutPipe()
 	if err := cmd.Start(); err != nil {
@@ -916,7 +930,7 @@ func (crashHarness) Gen(seed uint64, prop, tier string) *simkit.Program {
 			add("storm", int64(r.Intn(40)), int64(r.Intn(crashUniverse)), int64(r.Intn(24)), 0)
 		}
 		if r.P(0.2) {
-			add("syskill", int64(r.Intn(1<<30)), int64(r.Pick(3, 2, 2, 1)*60+r.Intn(60)), 1, 0)
+			add("syskill", int64(r.Intn(1<<30)), int64(r.Intn(8*36)), 1, 0)
 		} else if r.P(0.35) {
 			add("realkill", int64(r.Intn(1<<30)), int64(r.Intn(8)), int64(r.Intn(4)), 0)
 		} else {
